@@ -737,10 +737,11 @@ func init() {
 		Real: []string{"pppoe.LCPStateMachine", "pppoe.IPCPStateMachine", "pppoe.IPV6CPStateMachine", "their time.AfterFunc restart timers (virtual clock)",
 			"pppoe.ParseLCPPacket/ParseLCPOptions/Serialize"},
 		Stub:         []string{"peer (harness-generated packets)", "IP pool behind IPCP (fixed-address model)", "PPPoE session/transport (sendPacket callback)"},
-		Rule:         "cases: random event/packet/sleep sequences (4-30 ops) over lcp/ipcp/ipv6cp with tape-chosen timer-vs-driver ordering, an administrative close/down from a second task racing the receive path, and the automaton's own state reports (callbacks, optionally yielding) recorded; non-trivial = >=3 operations completed and (a fault fired or the scheduler switched tasks more than twice); distinct = distinct (case hash, schedule fingerprint)",
+		Rule:         "cases: random event/packet/sleep sequences (4-30 ops) over lcp/ipcp/ipv6cp with tape-chosen timer-vs-driver ordering, an administrative close/down from a second task racing the receive path, and the automaton's own state reports (callbacks, optionally yielding) recorded; one case in ten is the motif lossy bring-up / both acknowledgements / renegotiation / silence; non-trivial = >=3 operations completed and (a fault fired or the scheduler switched tasks more than twice); distinct = distinct (case hash, schedule fingerprint)",
 		QuickRuns:    40000,
 		ThoroughRuns: 4000000,
 		Assumptions: []string{"packets are only delivered while the lower layer is up", "an acknowledgement is a Configure-Ack whose identifier matches the automaton's latest Configure-Request and repeats its options",
-			"option acceptability classes (ok/either/offending) are the harness's, MRU range and PFC/ACFC/auth are treated as policy (either)"},
+			"option acceptability classes (ok/either/offending) are the harness's, MRU range and PFC/ACFC/auth are treated as policy (either)",
+			"'the configured number': a negotiation the automaton starts in reaction to a packet it received while reporting Opened is a fresh one and sends at least Max-Configure Configure-Requests before it gives up on a silent peer; for other negotiations only the upper bound is applied"},
 	})
 }
